@@ -317,6 +317,36 @@ Gp: !protocol
 G1 = G0.replace("    v: int16\n    gone: uint8\n", "    v: int32\n    extra: float32?\n")
 
 
+# three versions that all differ, listed NEWEST FIRST in `versions:` (the labels need not be sorted)
+N0 = """Pn: !record
+  fields:
+    x: float32
+    s: string
+
+Np: !protocol
+  sequence:
+    n: int32
+    one: Pn
+    pts: Pn*
+    st: !stream
+      items: Pn
+"""
+N1 = N0.replace("    n: int32\n", "    n: int64\n")
+N2 = N1.replace("    x: float32\n    s: string\n", "    s: string\n    x: float32\n    extra: int16?\n")
+# a record of two floats is trivially serializable in C++; its fields change order (a documented compatible change), so a vector of
+# it may not be copied as memory when the other version is read or written (known finding `compat-memcpy-fast-path`)
+T0 = """Pt: !record
+  fields:
+    x: float32
+    y: float32
+
+Tq: !protocol
+  sequence:
+    pts: Pt*
+"""
+T1 = T0.replace("    x: float32\n    y: float32\n", "    y: float32\n    x: float32\n")
+
+
 def small_int(rng, signed, w):
     if w == 1:
         return rng.randint(0, 1)
@@ -379,8 +409,9 @@ def gen_small(rng, steps, edges=False, numbers=False):
 class Versioned:
     """a chain of versions of one package; C++ generated and built for the last one with all earlier ones listed"""
 
-    def __init__(self, ctx, name, texts):
+    def __init__(self, ctx, name, texts, newest_first=False):
         self.ctx, self.name, self.texts = ctx, name, texts
+        self.newest_first = newest_first
         self.root = os.path.join(ctx.scratch, name)
         self.envs, self.schemas = [], []
         n = len(texts)
@@ -399,7 +430,10 @@ class Versioned:
             self.schemas.append({m.group(1): m.group(2) for m in re.finditer(r'class (\w+)WriterBase\(abc\.ABC\):.*?schema = r"""(.*?)"""', src, re.S)})
         d = os.path.join(self.root, "cur")
         os.makedirs(d, exist_ok=True)
-        vers = "".join("  v%d: ../v%d\n" % (i, i) for i in range(n - 1))
+        order = list(range(n - 1))
+        if getattr(self, "newest_first", False):
+            order.reverse()          # the labels need not be listed in sorted order
+        vers = "".join("  v%d: ../v%d\n" % (i, i) for i in order)
         open(d + "/_package.yml", "w").write("namespace: Evo\nversions:\n%scpp:\n  sourcesOutputDir: ../cpp/generated\n  generateCMakeLists: false\n"
                                              "  generateHDF5: false\n  generateNDJson: false\n  overrideArrayHeader: ndarray_shim.h\n" % vers)
         open(d + "/m.yml", "w").write(texts[-1])
@@ -459,10 +493,10 @@ def run(ctx):
                    {"broken": failing, "log": log[-3000:]}, no_input=True)
     quick = ctx.tier == "quick"
     rng = ctx.rng
-    chains = [("chain", [V0, V1, V2]), ("generics", [G0, G1])]
+    chains = [("chain", [V0, V1, V2]), ("generics", [G0, G1]), ("newestfirst", [N0, N1, N2]), ("trivialrec", [T0, T1])]
     cases, meta = [], []
     for name, texts in chains:
-        vp = Versioned(ctx, name, texts)
+        vp = Versioned(ctx, name, texts, newest_first=(name == "newestfirst"))
         rep0 = {"versions": texts}
         if not vp.accepted:
             ctx.report("chain-rejected", "yardl rejects the chain of documented compatible edits: %s" % vp.gen_out[-300:], dict(rep0, output=vp.gen_out))
